@@ -5,6 +5,7 @@ CONSTANTS
   ObeySet = {"all", "none"}
   EASet = {"none", "secs"}
   WithInterrupt = TRUE
+  EarlyExit = TRUE
   Emit = FALSE
   MaxTicks = 2
 INIT LInit
